@@ -438,7 +438,7 @@ type KxLastStr struct {
 }
 
 type KxFirstHigh struct {
-	X int    `plenc:"7"`
+	X int    `plenc:"12"`
 	A int    `plenc:"1"`
 	B string `plenc:"3"`
 }
